@@ -66,6 +66,104 @@ def _limit_branch(fn):
     raise ValueError('max_errors test not found in the exception handler of _provider_execute')
 
 
+# ---- the cache read paths: comparison operators, ORDER BY columns and loop shapes, as numbers
+OPCODE = {'Eq': 0, 'NotEq': 1, 'Lt': 2, 'LtE': 3, 'Gt': 4, 'GtE': 5, 'Is': 6, 'IsNot': 7}
+
+
+def _compare_op(fn, left, right):
+    """code of the operator of the one comparison `left <op> right` inside fn (source text of both sides)"""
+    found = []
+    for n in ast.walk(fn):
+        if isinstance(n, ast.Compare) and len(n.ops) == 1 and ast.unparse(n.left) == left and \
+                ast.unparse(n.comparators[0]) == right:
+            found.append(OPCODE[type(n.ops[0]).__name__])
+    if len(found) != 1:
+        raise ValueError('expected exactly one comparison "%s ? %s" in %s, found %d' % (left, right, fn.name, len(found)))
+    return found[0]
+
+
+def _order_by(fn):
+    """the column lists of all .order_by(...) calls in fn; columns as 1 = block_height, 2 = index, 0 = anything else"""
+    out = []
+    for n in ast.walk(fn):
+        if isinstance(n, ast.Call) and isinstance(n.func, ast.Attribute) and n.func.attr == 'order_by':
+            out.append([{'DbCacheTransaction.block_height': 1, 'DbCacheTransaction.index': 2}.get(ast.unparse(a), 0)
+                        for a in n.args])
+    return out
+
+
+def _stmt_index(body, pred):
+    for i, st in enumerate(body):
+        if pred(st):
+            return i
+    return -1
+
+
+def _append_then_reset(fn, lst, var):
+    """in the loop `for d in ..: <lst>.append(d); if d.txid == <var>: <lst> = []` the append comes first (1) or not (0)"""
+    for n in ast.walk(fn):
+        if isinstance(n, ast.For):
+            ia = _stmt_index(n.body, lambda st: isinstance(st, ast.Expr) and ast.unparse(st.value).startswith(lst + '.append('))
+            ir = _stmt_index(n.body, lambda st: isinstance(st, ast.If) and ast.unparse(st.test).endswith('== ' + var) and
+                             any(isinstance(x, ast.Assign) and ast.unparse(x) == lst + ' = []' for x in st.body))
+            if ia >= 0 and ir >= 0:
+                return 1 if ia < ir else 0
+    raise ValueError('append/reset loop over %s not found in %s' % (lst, fn.name))
+
+
+def _lit_z_list(l):
+    return '[' + '; '.join(z_lit(x) for x in l) + ']'
+
+
+def cache_read_facts(svc, cache):
+    cgt = _find_def(cache, 'gettransactions')
+    cgu = _find_def(cache, 'getutxos')
+    cbt = _find_def(cache, 'getblocktransactions')
+    sgt = _find_def(svc, 'gettransactions')
+    sgu = _find_def(svc, 'getutxos')
+    sgb = _find_def(svc, 'getblock')
+    out = ['(* Cache.gettransactions / getutxos / getblocktransactions and their callers: operators (0 ==, 1 !=, 2 <, 3 <=, 4 >, '
+           '5 >=, 6 is, 7 is not), ORDER BY columns (1 block_height, 2 index) *)']
+    facts = [
+        ('svc_cgt_after_block_op', _compare_op(cgt, 'DbCacheTransaction.block_height', 'after_tx.block_height')),
+        ('svc_cgt_last_block_op', _compare_op(cgt, 'DbCacheTransaction.block_height', 'db_addr.last_block')),
+        ('svc_cgt_limit_op', _compare_op(cgt, 'len(txs)', 'limit')),
+        ('svc_cgt_reset_op', _compare_op(cgt, 'd.txid', 'after_txid')),
+        ('svc_cgt_append_before_reset', _append_then_reset(cgt, 'db_txs2', 'after_txid')),
+        ('svc_cgu_unspent_op', _compare_op(cgu, 'db_utxo.spent', 'False')),
+        ('svc_cgu_unknown_op', _compare_op(cgu, 'db_utxo.spent', 'None')),
+        ('svc_cgu_reset_op', _compare_op(cgu, 'db_utxo.txid', 'after_txid')),
+        ('svc_cgu_output_filter_op', _compare_op(cgu, 'DbCacheTransactionNode.is_input', 'False')),
+        ('svc_cbt_from_op', _compare_op(cbt, 'DbCacheTransaction.index', 'n_from')),
+        ('svc_cbt_to_op', _compare_op(cbt, 'DbCacheTransaction.index', 'n_to')),
+        ('svc_cbt_height_op', _compare_op(cbt, 'DbCacheTransaction.block_height', 'height')),
+        ('svc_sgt_page_full_op', _compare_op(sgt, 'len(txs_cache)', 'limit')),
+        ('svc_sgt_uptodate_op', _compare_op(sgt, 'db_addr.last_block', 'self.blockcount()')),
+        ('svc_sgt_incomplete_op', _compare_op(sgt, 'len(txs)', 'limit')),
+        ('svc_sgt_provider_false_op', _compare_op(sgt, 'txs', 'False')),
+        ('svc_sgt_unconfirmed_op', _compare_op(sgt, 't.confirmations', '0')),
+        ('svc_sgu_incomplete_op', _compare_op(sgu, 'len(utxos)', 'limit')),
+        ('svc_sgb_last_page_op', _compare_op(sgb, 'page * limit', 'block.tx_count')),
+    ]
+    for name, v in facts:
+        out.append('Definition %s : Z := %s.' % (name, z_lit(v)))
+    ob = _order_by(cgt)
+    if len(ob) != 2:
+        raise ValueError('expected two order_by calls in Cache.gettransactions')
+    out.append('Definition svc_cgt_order_after : list Z := %s.' % _lit_z_list(ob[0]))
+    out.append('Definition svc_cgt_order_all : list Z := %s.' % _lit_z_list(ob[1]))
+    ob = _order_by(cgu)
+    if len(ob) != 1:
+        raise ValueError('expected one order_by call in Cache.getutxos')
+    out.append('Definition svc_cgu_order : list Z := %s.' % _lit_z_list(ob[0]))
+    ob = _order_by(cbt)
+    if len(ob) > 1:
+        raise ValueError('more than one order_by call in Cache.getblocktransactions')
+    out.append('(* Cache.getblocktransactions: ORDER BY columns ([] = none: rows come back in filing order) *)')
+    out.append('Definition svc_cbt_order : list Z := %s.' % _lit_z_list(ob[0] if ob else []))
+    return out
+
+
 def generate(repo):
     sys.path.insert(0, repo)
     import bitcoinlib.config.config as cfg
@@ -90,4 +188,5 @@ def generate(repo):
                bool_lit(_raises_on_is_false(_find_def(svc, 'getbalance'), 'balance')))
     out.append('Definition svc_getutxos_raises_on_false : bool := %s.' %
                bool_lit(_raises_on_is_false(_find_def(svc, 'getutxos'), 'utxos')))
+    out += cache_read_facts(svc, cache)
     return {'GenService.v': '\n'.join(out) + '\n'}
